@@ -5,10 +5,35 @@ SETUP = "cd /verif/engine && GOFLAGS=-mod=mod GOPROXY=off GOSUMDB=off GOTOOLCHAI
 BASE_OFF = "cd /repo && for m in . ./external_jsonlib_test ./fuzz ./generic_test ./issue_test ./loader; do (cd $m && GOPROXY=off GOSUMDB=off GOTOOLCHAIN=local go test -vet=off -count=1 -timeout 25m ./...) || exit 1; done"
 
 # property -> (level text, level note, technique) ; only properties with registered harnesses are claimed
+TECH = "bounded symbolic execution of the real Go code (go/ssa -> SMT-LIB2 bit-vectors, z3); counterexamples replayed natively"
+TRUST = "Trusted: my go/ssa->SMT executor (gosym), z3 4.8.12, the harness oracles under /verif/harness. "
 CLAIMED = {
- "C18": ("Bounded symbolic model checking of the real Go code that turns configuration switches into option bits: Config.Froze is executed symbolically from go/ssa with all Config booleans as solver variables and the resulting encoder/decoder option words are compared (by z3, for every configuration at once) with the documented field->option table.",
-         "Trusted: my go/ssa->SMT executor, z3, the field->option-name table written in the harness (names only; constant values are read from the tree). Outside: effect of the bits inside generated code/natives.",
-         "go/ssa symbolic execution + z3 (QF_BV), bounded; counterexamples replayed natively"),
+ "C01": ("Partial. Decided by the solver for all inputs in the bound: the trailing-data rule of Unmarshal (Decoder.CheckTrailings) against the real encoding/json.isSpace executed from stdlib SSA. The type-directed decoding itself (reflect-driven compilers, JIT output) is outside what this check reaches.",
+         TRUST+"Outside: struct field selection, generated decoders, natives (DESIGN 3.1).", TECH),
+ "C02": ("Partial. ast.NewRaw accepts exactly one value followed only by JSON spaces (Go wrapper rule), decided for all documents of the family; native validators are represented by the repository's pure-Go scanners.",
+         TRUST+"Assumes the native skip_one behaves like ast/decode.go skipValue (replays use the real native). Outside: the native validators' machine code, Valid/Skip/Get wrappers not yet harnessed.", TECH),
+ "C03": ("Partial. alg.IsValidNumber == the real encoding/json.isValidNumber for every string up to 6 bytes (both executed symbolically; one side from stdlib SSA).",
+         TRUST+"Outside: encoder programs, map-key sorting, JIT output, floats.", TECH),
+ "C04": ("Partial. Invalid output of a user Marshaler is rejected unless validation is explicitly disabled, for every 64-bit option word (prim.EncodeJsonMarshaler).",
+         TRUST+"json.Compact/alg.Valid are stubs that state their behaviour on the three sample outputs; replays use the real functions. Outside: float round-trip, quote/unquote inverse, NaN/Inf paths.", TECH),
+ "C06": ("Ownership of returned buffers decided with ghost pool state: encoder.Encode's result is never pool-owned, never aliased or changed by the next call, on both sides of the pool size limit and for every pool history of length 1; EncodeInto preserves the caller's prefix and stays inside the buffer; StreamDecoder hands the decoder a private copy for every option word.",
+         TRUST+"The per-type codec is a stub appending arbitrary bytes; sync.Pool.Get returns New() or any earlier Put (nondeterministic). Outside: generated encoders' space checks, Unmarshal/Get copies.", TECH),
+ "C07": ("Partial. No panic and bounded excerpts in error formatting for every source length and every int64 position (calcBounds, SyntaxError/MismatchTypeError formatting); Node.UnmarshalJSON on short input; encoder.HTMLEscape for every destination geometry.",
+         TRUST+"fmt.Sprintf is opaque. Outside: generated code, recursion depth, natives.", TECH),
+ "C09": ("Partial, inductive: one _ProgramMap.add from an arbitrary valid cache state (all occupancy patterns, symbolic hashes) keeps every existing binding, finds the new key, never finds absent keys (equal hash is not equal type), copy-on-write; covers histories of any length that keep the invariant.",
+         TRUST+"Representation invariant stated in the harness. Outside: loader name mapping, encoder cache key vs pv, compile decisions.", TECH),
+ "C12": ("Partial. The Go number wrappers of the VM encoder (alg.F64toa/F32toa) append exactly what the native routine (called directly by the JIT) prints, for all 2^64 / 2^32 bit patterns and buffer geometries.",
+         TRUST+"Native f64toa/f32toa are uninterpreted functions of the bit pattern with the facts for +-0 and NaN/Inf. Outside: whole programs VM vs JIT (needs JIT code), flag tests.", TECH),
+ "C14": ("Partial. Node.Get / Index / Searcher.GetByPath on skeleton document families with symbolic keys (duplicates included, 3-member and 17-member objects crossing the hash-index threshold, lazy and fully loaded): the located node is the first occurrence and Raw()/Int64() describe it, for every SearchOptions combination.",
+         TRUST+"Natives are represented by the repository's pure-Go scanners (what non-amd64 builds run); strhash is an injective uninterpreted function (64-bit collisions outside the bound). Outside: native get_by_path machine code, Preorder, larger documents.", TECH),
+ "C15": ("Bounded histories: all sequences of 2 operations (symbolic arguments) over Set/Unset/Get resp. SetByIndex/UnsetByIndex/Add/Pop on 3-member containers starting raw, lazy or loaded, compared with an ordered model after every step; lazy vs loaded 17-member object.",
+         TRUST+"Same native models as C14. Outside: Move/SortKeys, longer histories, nested mutation, Len on partially loaded nodes (documented deviation).", TECH),
+ "C17": ("StreamDecoder (Decode/More/readMore/peek/scan/refill/realloc) against framing the concatenated stream, for every way a Reader can cut a 3-byte stream (empty reads, data+EOF, injected error at any offset); StreamEncoder error propagation for every Writer behaviour.",
+         TRUST+"native.SkipOneFast is a reference model transcribed from native/scanning.h (scalar paths); the decoder/codec are stubs. Known finding F4 (number cut by a Read boundary) is reported, not repaired.", TECH),
+ "C18": ("Partial. Config.Froze for all configurations at once; prim.EncodeJsonMarshaler/EncodeTextMarshaler: the three marshaler switches have exactly their documented effect for every 64-bit option word.",
+         TRUST+"The field->option-name table in the harness (names only). Outside: bits tested inside generated code and natives, setters.", TECH),
+ "C20": ("Partial. The restartable quote / html-escape loops (alg.Quote, alg.HtmlEscape): every input byte consumed once, in order, into contiguous output inside the capacity, prefix preserved, flags passed, no panic, for every buffer geometry class and every escape-size pattern of inputs up to 3 bytes.",
+         TRUST+"The native routines are modelled by their size behaviour (greedy, escape-size tables from native/parsing.h); natively the output is checked against encoding/json. Outside: the natives' machine code, unquote, utf8.", TECH),
 }
 NA = {
  "C10": "needs a model of the Go collector / stack copier / unwinder against pointer liveness in JIT-emitted machine code; not encodable with the installed tools (DESIGN.md 3.10, 5)",
